@@ -23,7 +23,9 @@ CLAIM = dict(
          "without a trailing path converter the follow-up is answered by the very rule that caused the redirect, with the same arguments - an "
          "order isomorphism between the two searches of the transition tree), C12_defaults_converge and C12_alias_converge (the URL the builder "
          "produced for the canonical rule is answered by that rule and not redirected again, given a canonical rule that is not shadowed and "
-         "distinct traces within the endpoint). "
+         "distinct traces within the endpoint), C12_websocket_redirect_scheme (an adapter bound to a websocket request redirects to ws:// / wss://), "
+         "C12_redirect_to_target / C12_redirect_to_subst / C12_redirect_to_on_base (a rule with a string redirect_to answers with a redirect to "
+         "scheme://host/script-root/ + the template with every <name> replaced by its converter's to_url of the matched value). "
          "Tied to the code by the regenerated constants and statement pins of coq/C03/Gen.v and by differential execution (extracted model vs "
          "werkzeug, defaults and alias redirects included) on maps x adapters (schemes, script roots, subdomains, query arguments) x paths; an "
          "impl-level oracle follows every redirect to a match of the denoted endpoint and arguments within 3 hops; adapters are bound with Map.bind "
@@ -33,7 +35,10 @@ CLAIM = dict(
          "input of the model (the encoded string); that the follow-up of a slash redirect is a match of the very rule that caused it (not only of a "
          "priority-minimal rule serving the target) is proved for maps without a trailing path converter and checked by the harness for the rest; "
          "the defaults / alias convergence theorems take the well-formedness of the built URL (the C04 derivation) and float-free values as "
-         "hypotheses; redirect_to targets, alias rules without a canonical rule and rules shadowing each other's "
+         "hypotheses; for rules with a trailing path converter the identity of the answering rule is checked on the implementation (the rule "
+         "and captures at the moment SlashRequired is raised are read off the interpreter); the subdomain an adapter is bound with is an input "
+         "of the model, the harness resolves Map.default_subdomain and the '<invalid>' subdomain of a server_name mismatch (statements pinned); "
+         "urljoin is modelled only where it leaves the reference alone (relative, no dot / empty segments), callable redirect_to targets, alias rules without a canonical rule and rules shadowing each other's "
          "canonical URL are outside the claim.",
     design="6/C12")
 
@@ -65,10 +70,14 @@ def gen_adapter(rng, ms: MapSpec) -> Adapter:
             server, suffix = "example.com", own            # the scheme's own default port: dropped by get_host
         elif c < 0.45:
             server = "example.com" + other                 # the other scheme family's default port: part of the origin
+        # the configured server_name does not fit the Host header: bind_to_environ warns and binds the subdomain "<invalid>"
+        mismatch = not ms.host_matching and rng.random() < 0.12
         return Adapter(scheme=scheme, server=server, script=rng.choice(SCRIPTS),
-                       subdomain=sub, query=rng.choice(ENV_QUERIES), environ=True, host_suffix=suffix)
+                       subdomain=sub, query=rng.choice(ENV_QUERIES), environ=True, host_suffix=suffix, mismatch=mismatch)
+    # Map.default_subdomain stands in for a subdomain that is not given to Map.bind
+    dsub = rng.choice(["www", "api", "de"]) if (sub is None and not ms.host_matching and rng.random() < 0.3) else None
     return Adapter(scheme=rng.choice(SCHEMES), server=rng.choice(SERVERS).lower(), script=rng.choice(SCRIPTS), subdomain=sub,
-                   query=rng.choice(QUERIES))
+                   query=rng.choice(QUERIES), default_sub=dsub)
 
 
 def with_defaults(rng, ms: MapSpec) -> MapSpec:
@@ -231,6 +240,11 @@ def judge_c12(chk, m, by_obj, ms: MapSpec, oracles, ad: Adapter, path: str, meth
     and following it ends (<= 3 hops) in a match of the endpoint and arguments the original path denotes."""
     if not impl.startswith("R "):
         return c03.judge(ms, oracles, ad, path, meth, impl)
+    if ad.mismatch:
+        # a misconfigured server_name: the adapter is bound to "<invalid>".other-name; what it redirects to is compared with
+        # the model (correspondence), the host is by construction not the one the client used
+        chk.count("redirect:server-name-mismatch")
+        return None
     url = uncps(impl[2:])
     pp = "/" + path.lstrip("/") if path else ""
     ws = ad.scheme in ("ws", "wss")
@@ -332,7 +346,7 @@ def _rule_by_idx(ms: MapSpec, idx: int) -> RuleSpec:
 def expected_host(ad: Adapter, ms: MapSpec, domain):
     if ms.host_matching:
         return ad.server if domain is None else domain
-    sub = (ad.subdomain or "") if domain is None else domain
+    sub = (ad.eff_subdomain() or "") if domain is None else domain
     return f"{sub}.{ad.server}" if sub else ad.server
 
 
@@ -386,7 +400,7 @@ def run(chk: Check) -> None:
                     kind = impl.split(" ")[0]
                     chk.count(f"outcome:{kind}")
                     bad = judge_c12(chk, m, by_obj, ms, oracles, ad, path, meth, impl)
-                    if kind == "R" and ad.environ and not bad and not path.startswith("//") and path.startswith("/") \
+                    if kind == "R" and ad.environ and not ad.mismatch and not bad and not path.startswith("//") and path.startswith("/") \
                             and "?" not in path and "#" not in path and "\n" not in path:
                         bad = e2e_query_preserved(m, ms, ad, path, meth)
                         chk.count("redirect:followed-through-client")
@@ -405,7 +419,123 @@ def run(chk: Check) -> None:
                     expect.append(impl)
                     meta.append(("match", msp, path, meth, ad))
     chk.count("redirects", nred)
+    same_rule_campaign(chk, 260 if quick else 4000)
+    redirect_to_campaign(chk, 140 if quick else 2200, lines, expect, meta)
     c03.compare_model(chk, "C12", lines, expect, meta)
+
+
+RT_PIECES = ["new", "x/", "a b", "é", "?q=1", "#f", "<>", "<", "a>b", "-", "v.", "/y", "a,b;c"]
+
+
+def redirect_to_campaign(chk, n_maps: int, lines, expect, meta) -> None:
+    """Rule.redirect_to string templates: the implementation against router_match_rt of the model (substitution of the
+    variables through their converters' to_url, joined to scheme://host/script-root/)."""
+    rng = chk.rng
+    for _ in range(n_maps):
+        ms = gen_map(rng, nmax=3, per_rule=rng.random() < 0.5)
+        if rng.random() < 0.4:
+            ms = with_defaults(rng, ms)
+        ms = replace(ms, rules=tuple(replace(r, idx=i) for i, r in enumerate(ms.rules)))
+        ad = replace(gen_adapter(rng, ms), environ=False, mismatch=False, host_suffix="")
+        if isinstance(ad.query, tuple) or ad.query is None or isinstance(ad.query, str):
+            pass
+        try:
+            m, by_obj = ms.make()
+        except Exception:  # noqa: BLE001
+            continue
+        rt = {}
+        for obj, r in zip(m._verif_objs, ms.rules):
+            if rng.random() < 0.6:
+                names = [n for n, _ in r.convs()]
+                parts = ["new/" if rng.random() < 0.7 else rng.choice(RT_PIECES)]
+                for _k in range(rng.randint(0, 3)):
+                    parts.append("<" + rng.choice(names) + ">" if names and rng.random() < 0.6 else rng.choice(RT_PIECES))
+                tpl = "".join(parts)
+                obj.redirect_to = tpl
+                rt[r.idx] = tpl
+        if not rt:
+            continue
+        enc_rt = "|".join(f"{i}={cps(t)}" for i, t in rt.items())
+        root = f"{ad.scheme or 'http'}://"
+        for path in c12_paths(rng, ms, 6):
+            impl = run_impl(m, ad, by_obj, path, "GET")
+            chk.count("redirect_to:" + impl.split(" ")[0])
+            if impl.startswith("R ") and not uncps(impl[2:]).startswith(root) and "://" not in "".join(rt.values()):
+                chk.fail("redirect-to-off-scheme", f"redirect_to target {uncps(impl[2:])!r} does not start with {root!r}",
+                         {"map": ms.describe(), "path": path, "method": "GET", "redirect_to": rt})
+            chk.case(("redirect_to", ms.cfg(), ms.enc(), ad.enc(), path, enc_rt), nontrivial=impl.startswith("R "))
+            lines.append(f"matchrt {ms.cfg()} {ms.enc()} {ad.enc()} {cps('GET')} {cps(path)} {enc_rt}")
+            expect.append(impl)
+            meta.append(("match", ms, path, "GET", ad))
+
+
+TAIL_POOL = ["/<path:p>", "/<path:p>/", "/a/<path:p>", "/a/<path:p>/", "/a", "/a/", "/<s>", "/<s>/", "/a/<s>/", "/<int:i>/",
+             "/<s>/<path:p>/", "/<s>/<path:p>", "/a/b/", "/<s>/b/", "/<int:i>/<path:p>/", "/a/<int:i>/<path:p>"]
+
+
+def same_rule_campaign(chk, n_maps: int) -> None:
+    """C12_converges for rules with a trailing path converter (the case the Coq theorem leaves out), checked on the
+    implementation: the rule and captured texts at the moment StateMachineMatcher._match raises SlashRequired are read
+    off the interpreter (sys.settrace), and the request for the redirect target must be answered by that very rule
+    with the converted texts."""
+    import sys
+    from urllib.parse import unquote as _unq
+    from werkzeug.exceptions import HTTPException
+    from werkzeug.routing import Map, RequestRedirect, Rule
+    from werkzeug.routing.matcher import SlashRequired
+    rng = chk.rng
+    cause = []
+
+    def tracer(frame, event, arg):
+        if frame.f_code.co_name != "_match":
+            return None
+
+        def local(frame, event, arg):
+            if event == "exception" and arg[0] is SlashRequired and "rule" in frame.f_locals and not cause:
+                cause.append((frame.f_locals["rule"], list(frame.f_locals["values"])))
+            return local
+        return local
+    segs = ["a", "b", "1", "", "a b", "é"]
+    for _ in range(n_maps):
+        rs = rng.sample(TAIL_POOL, rng.randint(1, 4))
+        kws = [dict(strict_slashes=rng.choice([None, None, False, True]), merge_slashes=rng.choice([None, None, False])) for _r in rs]
+        mkw = dict(strict_slashes=rng.random() < 0.8, merge_slashes=rng.random() < 0.7)
+        m = Map([Rule(r, endpoint=f"e{i}", **kw) for i, (r, kw) in enumerate(zip(rs, kws))], **mkw)
+        a = m.bind("example.com")
+        for _p in range(24):
+            p = "/" + "/".join(rng.choice(segs) for _k in range(rng.randint(1, 4)))
+            cause.clear()
+            sys.settrace(tracer)
+            try:
+                a.match(p)
+                continue
+            except RequestRedirect as e:
+                url = e.new_url
+            except HTTPException:
+                continue
+            finally:
+                sys.settrace(None)
+            chk.count("same-rule:redirects")
+            info = {"map": {"rules": [dict(rule=r, endpoint=f"e{i}", methods=None, **kw) for i, (r, kw) in enumerate(zip(rs, kws))],
+                            "redirect_defaults": True, "host_matching": False, **mkw},
+                    "adapter": {"server": "example.com"}, "path": p, "method": "GET", "observed": "R " + url}
+            p2 = _unq(url[len("http://example.com"):])
+            try:
+                r2, v2 = a.match(p2, return_rule=True)
+            except RequestRedirect as e:
+                chk.fail("redirect-not-converged", f"{p!r} -> {p2!r} is redirected again to {e.new_url!r}", info)
+                continue
+            except HTTPException as e:
+                chk.fail("redirect-target-unmatched", f"{p!r} -> {p2!r} answers {type(e).__name__}", info)
+                continue
+            chk.case(("same-rule", tuple(rs), repr(kws), repr(mkw), p), nontrivial=True)
+            if cause:
+                r1, caps = cause[0]
+                conv = {str(name): r1._converters[name].to_python(value) for name, value in zip(r1._converters.keys(), caps)}
+                chk.count("same-rule:slash" + (":path-tail" if "<path:" in r1.rule else ""))
+                if r2 is not r1 or dict(v2) != conv:
+                    chk.fail("redirect-other-rule", f"{p!r} -> {p2!r}: the redirect was caused by {r1.rule!r} with {conv!r}, "
+                                                    f"the target is answered by {r2.rule!r} with {dict(v2)!r}", info)
 
 
 def main(chk: Check) -> None:
